@@ -88,6 +88,8 @@ def check_case(case):
   named = G.named_params(shape)
 
   def configurable_param(p):
+    if p in G.posonly_params(shape):
+      return False      # def f(a, /, b): `a` cannot be bound (it is passed by position only)
     if allow is not None and allow and p not in allow:
       return False
     if deny is not None and deny and p in deny:
@@ -97,6 +99,8 @@ def check_case(case):
   bad_sig_required = [p for p in req_defaults if not configurable_param(p)]
   if shape.get('also_as'):
     labels.add('same-object-registered-before-without-lists')
+  if G.posonly_params(shape):
+    labels.add('positional-only-leading-parameters')
   if bad_sig_required:
     try:
       G.build(shape, gin)
@@ -297,9 +301,14 @@ def strategy(draw):
     shape['required_defaults'] = []
     shape.pop('allowlist', None)
     shape.pop('denylist', None)
+  if (shape['kind'] == 'function' and shape['pos'] and not shape.get('decorated') and
+      'allowlist' not in shape and 'denylist' not in shape and draw(st.integers(0, 3)) == 0):
+    # def f(a, /, b, c=...): positional arguments still count from `a`, which is never bound
+    shape['posonly_pos'] = draw(st.integers(1, len(shape['pos'])))
   entries = draw(st.lists(st.sampled_from(['s', 't', 's/t', None, ['s', 't'], ['u']]),
                           max_size=3))
-  pool = named + (G.EXTRA if shape['varkw'] else [])
+  pool = ([p for p in named if p not in G.posonly_params(shape)] +
+          (G.EXTRA if shape['varkw'] else []))
   bindings = []
   if pool:
     for i in range(draw(st.integers(0, 8))):
@@ -307,7 +316,8 @@ def strategy(draw):
       bindings.append([draw(st.sampled_from(SCOPES)), draw(st.sampled_from(pool)),
                        draw(st.sampled_from(['B%d' % i, 'B%d' % i, None, 0, '', False, []]))])
   positional = shape['pos'] + shape['dflt']
-  n_pos = draw(st.integers(0, len(positional) + (2 if shape['varargs'] else 0)))
+  n_pos = draw(st.integers(len(G.posonly_params(shape)) if draw(st.integers(0, 7)) else 0,
+                           len(positional) + (2 if shape['varargs'] else 0)))
   val = lambda i: st.sampled_from([REQ, REQ, 'C%d' % i, 'C%d' % i, 'C%d' % i])
   args = [draw(val(i)) for i in range(n_pos)]
   if n_pos > len(positional) and draw(st.integers(0, 3)) != 0:
